@@ -307,7 +307,7 @@ def _parents(n):
 _GS = "        if seed is not None:\n            np.random.seed(seed)\n\n        if start_state is None and self.state is None:\n            self.state = self.random_state()\n        elif start_state is not None:\n            self.set_start_state(start_state)\n\n        types ="
 
 
-@rule("C07.defuse", "anchored files: every parameter is read, no value is computed and dropped (generic def-use detectors, triaged hit list)", floor=2)
+@rule("C07.defuse", "anchored files: no parameter is accepted and ignored (generic def-use detector, triaged exemptions)", floor=2)
 def defuse(rc):
     from . import shared as _sh
     _sh.defuse_rule(rc, _sh.anchor_files("C07"))
